@@ -3,6 +3,7 @@ import Ezc3dVerif.Model.Read
 import Ezc3dVerif.Model.Write
 import Ezc3dVerif.Model.SaveIO
 import Ezc3dVerif.Proofs.LoadWriteDec
+import Ezc3dVerif.Properties.C03b
 /-
   Line-protocol driver: runs the model on an op script and prints the same lines as the C++
   harness (/verif/harness/harness.cpp).
@@ -238,7 +239,12 @@ def stepLine (d : DState) (n : Nat) (line : String) : IO (DState × List String)
         let hyps := decide (LoadWriteHyps fops s b ps pl al)
         let concl := decide (C3D.load fops b = .ok (s.reloaded ps.length pl al))
         let sameFrames := decide ((s.reloaded ps.length pl al).frames = s.frames)
-        return (d, [hd, s!"V lw hyps={hyps} concl={concl} frames_identical={sameFrames}"])
+        -- the same for `C03.spec_decode_write`: the independent decoder on the model's bytes
+        let sdh := decide (C03.SpecDecodeHyps s b ps)
+        let sdc := match Spec.decode b true with
+          | some c => decide (c = C03.specContent s ps.length (c.paramEnd - 512)) && decide (c.paramEnd - 512 ≤ ps.length)
+          | none => false
+        return (d, [hd, s!"V lw hyps={hyps} concl={concl} frames_identical={sameFrames} sd_hyps={sdh} sd_concl={sdc}"])
       | _, _ => return (d, [hd, "V lw nowrite"])
     | ["print"] => return (d, [hd, "R ok"])
     | ["dump"] => return (d, hd :: dumpLines d.mode s)
